@@ -1,8 +1,12 @@
 import Beetswap.Proofs.ClientView
 import Beetswap.Proofs.Server
+import Beetswap.Proofs.ClientSending
 /-!
 # C15 — Extra connections to a peer neither duplicate nor reset the exchange (partial)
-PARTIAL: with late acknowledgements two connections can interfere (known finding F14).
+PARTIAL: the theorems are about the behaviours' bookkeeping; the connections themselves (libp2p-swarm,
+yamux) are exercised by the simulator. That two connections cannot interfere through late
+acknowledgements (finding F14, repaired) is `stale_report_ignored` here and
+`Props.C14.behaviour_obeys_handlers` for the whole composition.
 -/
 namespace Beetswap.Props.C15
 open Std Beetswap.Client Beetswap.Wl Beetswap.Spec.ClientSpec Beetswap.Proofs.ClientView
@@ -43,5 +47,22 @@ theorem one_in_flight (w : Wantlist) (now : Nat) (ps : PeerSt) (pref : Option Na
 theorem server_extra_connection_keeps_state (s : Server.State) (p : Nat) (h : p ∈ s.wl) :
     Server.connect s p = s :=
   Proofs.Server.extra_connection_keeps_state s p h
+
+/-- A report of a connection other than the one the current transmission is tracked on — a
+connection given up after `RECEIVE_REQUEST_TIMEOUT`, still running — changes nothing: the
+exchange over the remaining connection is not disturbed. -/
+theorem stale_report_ignored (c : State) (p src : Nat) (st : Sending) (ps : PeerSt) (t : Nat)
+    (hp : c.peers[p]? = some ps) (ht : ps.sending.conn? = some t) (hne : t ≠ src) :
+    sendingChanged c p src st = c :=
+  Proofs.ClientSending.sendingChanged_ignored c p src st ps t hp ht hne
+
+/-- No report ever touches the wantlist, the exchange state or the connections of a peer. -/
+theorem report_keeps_exchange (c : State) (p src : Nat) (st : Sending) :
+    (sendingChanged c p src st).wantlist = c.wantlist ∧
+    (((sendingChanged c p src st).peers[p]?).getD {}).wl = ((c.peers[p]?).getD {}).wl ∧
+    (((sendingChanged c p src st).peers[p]?).getD {}).sendFull = ((c.peers[p]?).getD {}).sendFull :=
+  ⟨(Proofs.ClientSending.sendingChanged_fields c p src st).2.1,
+   (Proofs.ClientSending.sendingChanged_fields c p src st).2.2.2.2.2.2,
+   (Proofs.ClientSending.sendingChanged_fields c p src st).2.2.2.2.2.1⟩
 
 end Beetswap.Props.C15
